@@ -10,5 +10,7 @@ func WrappableProps(propContainer map[string]object.PanObject) map[string]object
 	// NOTE: inject some built-in functions which relate to parser or evaluator
 	return map[string]object.PanObject{
 		"_name": object.NewPanStr("Wrappable"),
+		// _sendProp works same as prop call to the wrapped value
+		"_sendProp": propContainer["Obj_sendProp"],
 	}
 }
